@@ -1,3 +1,4 @@
+import OutlineModel.Proofs.TieMConn
 import OutlineModel.Props.C06
 import OutlineModel.Model.MConn
 import OutlineModel.Gen.Decisions
@@ -309,5 +310,43 @@ end MeasuredConn
 theorem status_alphabet_as_modelled :
     Gen.Decisions.tcpStatuses = ["ERR_CIPHER", "ERR_CONNECT", "ERR_READ_ADDRESS", "ERR_RELAY_CLIENT", "ERR_RELAY_TARGET",
       "ERR_REPLAY_CLIENT", "ERR_REPLAY_SERVER"] := by decide
+
+
+/-! ### The counting wrapper, about the code itself
+
+`Gen.Code.measuredConn.Read / Write / WriteTo / ReadFrom` are TRANSLATED from service/metrics/metrics.go on every run
+(extract/golean.go); the underlying connection's operations and io.Copy are parameters (any functions). -/
+
+/-- **code_counters_follow_the_wire**: each translated method never panics, hands the underlying answer through unchanged and
+    adds exactly the byte count the underlying operation reported to exactly one counter — a failed or short
+    write is counted with what was accepted, never with what was asked. -/
+theorem code_counters_follow_the_wire
+    (R W : GoRT.Opaque "transport.StreamConn" → List UInt8 → Int × Option String) (c : Gen.Code.measuredConn) (b : List UInt8)
+    (h0 : 0 ≤ c.readCount) (h1 : 0 ≤ c.writeCount) (hr : 0 ≤ (R c.StreamConn b).1) (hw : 0 ≤ (W c.StreamConn b).1) :
+    (∃ c', Gen.Code.measuredConn.Read R c b = some (c', (R c.StreamConn b).1, (R c.StreamConn b).2) ∧
+        Tie.MConn.abs c' = MConn.step (Tie.MConn.abs c) (.read (R c.StreamConn b).1.toNat)) ∧
+    (∃ c', Gen.Code.measuredConn.Write W c b = some (c', (W c.StreamConn b).1, (W c.StreamConn b).2) ∧
+        Tie.MConn.abs c' = MConn.step (Tie.MConn.abs c) (.write b.length (W c.StreamConn b).1.toNat)) := by
+  obtain ⟨c1, a1, a2, _⟩ := Tie.MConn.read_tie R c b h0 hr
+  obtain ⟨c2, b1, b2, _⟩ := Tie.MConn.write_tie W c b h1 hw
+  exact ⟨⟨c1, a1, a2⟩, ⟨c2, b1, b2⟩⟩
+
+/-- the copy paths: WriteTo adds io.Copy's count to the read counter, ReadFrom adds the underlying ReaderFrom's (or
+    io.Copy's) count to the write counter -/
+theorem code_copy_paths_follow_the_wire
+    (copyOut : GoRT.Opaque "io.Writer" → GoRT.Opaque "transport.StreamConn" → Int × Option String)
+    (impl : GoRT.Opaque "transport.StreamConn" → Bool)
+    (rf : GoRT.Opaque "io.ReaderFrom" → GoRT.Opaque "io.Reader" → Int × Option String)
+    (copyIn : GoRT.Opaque "transport.StreamConn" → GoRT.Opaque "io.Reader" → Int × Option String)
+    (c : Gen.Code.measuredConn) (w : GoRT.Opaque "io.Writer") (r : GoRT.Opaque "io.Reader") (so si : List MConn.CopyStep)
+    (h0 : 0 ≤ c.readCount) (h1 : 0 ≤ c.writeCount) (ho : (copyOut w c.StreamConn).1 = (MConn.copied so : Int))
+    (hi : (if impl c.StreamConn then rf ⟨c.StreamConn.val⟩ r else copyIn c.StreamConn r).1 = (MConn.copied si : Int)) :
+    (∃ c', Gen.Code.measuredConn.WriteTo copyOut c w = some (c', (copyOut w c.StreamConn).1, (copyOut w c.StreamConn).2) ∧
+        Tie.MConn.abs c' = MConn.step (Tie.MConn.abs c) (.writeTo so)) ∧
+    (∃ c', Gen.Code.measuredConn.ReadFrom impl rf copyIn c r =
+          some (c', (if impl c.StreamConn then rf ⟨c.StreamConn.val⟩ r else copyIn c.StreamConn r).1,
+                    (if impl c.StreamConn then rf ⟨c.StreamConn.val⟩ r else copyIn c.StreamConn r).2) ∧
+        Tie.MConn.abs c' = MConn.step (Tie.MConn.abs c) (.readFrom (impl c.StreamConn) si)) :=
+  ⟨Tie.MConn.writeTo_tie copyOut c w so h0 ho, Tie.MConn.readFrom_tie impl rf copyIn c r si h1 hi⟩
 
 end OutlineModel.Props.C15
